@@ -1656,7 +1656,7 @@ def check_triangulation(ext, holes, tris, pts_all):
 
 def index_collision(ext, holes) -> bool:
     """linked_list() gives a ring whose winding it reverses the indices start+1..start+n: its last vertex then shares `Node.i`
-    with the first vertex of the next ring when that one is not reversed (known finding F20)"""
+    with the first vertex of the next ring when that one is not reversed (known finding C19-F4)"""
     rings = [(ext, True)] + [(h, False) for h in holes if len(h) > 0]
     rev = []
     for pts, ccw in rings:
@@ -1685,7 +1685,7 @@ def oracle_triangulation(ctx):
                          {"op": "earcut", "impl": name, "ext": [list(map(str, p)) for p in ext],
                           "holes": [[list(map(str, p)) for p in h] for h in holes]})
 
-    # corpus: the input on which F20 was found
+    # corpus: the input on which C19-F4 was found
     run("ortho", [(18, 15), (12, 15), (6, 15), (0, 15), (0, 0), (24, 0), (24, 21), (18, 21)],
         [[(14, 8), (20, 11), (17, 14), (14, 11)], [(9, 6), (10, 6), (10, 5), (9, 5)]])
     for n in range(3, ctx.n(6, 7) + 1):
